@@ -240,6 +240,9 @@ def _r12h(rep):
             # operations): its orientation is decided by R12k; the site is listed as not decided
             rep.unknown(f"R12h: {qn}: {core.norm(str(e_), 140)}")
     _r12k(rep)
+    from rules import shared_readonly
+
+    shared_readonly.run(rep, "R12l", ["phonopy/gruneisen/band_structure.py", "phonopy/gruneisen/mesh.py", "phonopy/gruneisen/core.py", "phonopy/phonon/group_velocity.py"], 5)
     # what the average accumulates, entry by entry (any spelling): row b of the addend is R_cart gv[b]
     from engine import symnp
     import sympy as _sp
